@@ -145,12 +145,13 @@ def b_udf(p):
 
 
 def b_eltorito(p):
+    # with a Joliet tree: the boot files and the catalog are reached by two directory walks
     iso = p.PyCdlib()
-    iso.new()
-    iso.add_fp(_fp(b'boot\n'), 5, '/BOOT.;1')
-    iso.add_fp(_fp(b'boot2\n'), 6, '/BOOT2.;1')
+    iso.new(joliet=3)
+    iso.add_fp(_fp(b'boot\n'), 5, '/BOOT.;1', joliet_path='/boot')
+    iso.add_fp(_fp(b'boot2\n'), 6, '/BOOT2.;1', joliet_path='/boot2')
     iso.add_fp(_fp(b'boot3\n'), 6, '/BOOT3.;1')
-    iso.add_eltorito('/BOOT.;1', '/BOOT.CAT;1')
+    iso.add_eltorito('/BOOT.;1', '/BOOT.CAT;1', joliet_bootcatfile='/boot.cat')
     iso.add_eltorito('/BOOT2.;1', efi=True)
     iso.add_eltorito('/BOOT3.;1', platform_id=2)
     return _master(iso)
@@ -194,6 +195,20 @@ def b_multisector_dir(p):
     return _master(iso)
 
 
+def b_combo(p):
+    """every extension at once: Rock Ridge, Joliet, UDF, El Torito, hard links across namespaces"""
+    iso = p.PyCdlib()
+    iso.new(interchange_level=3, joliet=3, rock_ridge='1.09', udf='2.60')
+    iso.add_fp(_fp(b'boot\n' * 500), 2500, '/BOOT.;1', rr_name='boot', joliet_path='/boot', udf_path='/boot')
+    iso.add_directory('/DIR1', rr_name='dir1', joliet_path='/dir1', udf_path='/dir1')
+    iso.add_fp(_fp(b'bar\n'), 4, '/DIR1/BAR.;1', rr_name='bar', joliet_path='/dir1/bar', udf_path='/dir1/bar')
+    iso.add_hard_link(iso_old_path='/DIR1/BAR.;1', iso_new_path='/BAR2.;1', rr_name='bar2')
+    iso.add_symlink('/SYM.;1', 'sym', 'dir1/bar', joliet_path='/sym')
+    iso.add_eltorito('/BOOT.;1', '/BOOT.CAT;1', rr_bootcatname='boot.cat', joliet_bootcatfile='/boot.cat',
+                     boot_info_table=True)
+    return _master(iso)
+
+
 def b_ladder(p):
     """every directory of a 24 level chain holds two sub-directories A (the chain) and B (empty)"""
     iso = p.PyCdlib()
@@ -211,7 +226,7 @@ BASE_BUILDERS = [
     ('plain1', b_plain1), ('l3_joliet', b_l3_joliet), ('rr109', b_rr109), ('rr112', b_rr112),
     ('deep', b_deep), ('l4', b_l4), ('xa', b_xa), ('udf', b_udf), ('eltorito', b_eltorito),
     ('hybrid_mbr', b_hybrid_mbr), ('hybrid_efi_mac', b_hybrid_efi_mac), ('dup_pvd', b_dup_pvd),
-    ('multisector_dir', b_multisector_dir), ('ladder', b_ladder)]
+    ('multisector_dir', b_multisector_dir), ('ladder', b_ladder), ('combo', b_combo)]
 # quick tier: every single fault on these (one per parser family), sector truncations on all
 QUICK_FULL = ('rr109', 'udf', 'eltorito', 'hybrid_efi_mac')
 
